@@ -7,13 +7,19 @@ package planner
 import (
 	"time"
 
+	"github.com/buildbuildio/pebbles/merger"
 	"github.com/vektah/gqlparser/v2/ast"
 )
 
 var _ time.Time
 var _ ast.Field
+var _ merger.TypeURLMap
 
 //@ nonnil-elems *QueryPlanStep
+//@ assume-nonnil-elems *ast.Definition
+//@ assume-nonnil-boxed *ast.Field
+//@ assume-nonnil-boxed *ast.InlineFragment
+//@ assume-nonnil-field PlanningContext.Schema
 
 // C14 (a): the cache key must cover everything planning reads from the context
 // (Schema and TypeURLMap are fixed per gateway).
@@ -108,3 +114,18 @@ var _ ast.Field
 //@ commute (ScrubFields).MarshalJSON loop 1: assumed: as loop 0
 //@ commute (ScrubFields).clean loop 0: finding: `for typename, fields := range fields { ...; break }` applies the first entry when the payload has no __typename key
 //@ commute createQueryPlanSteps loop 0: assumed: one plan step per location (bag); extractSelectionSet writes only copies it makes and the child steps it creates; consumers group steps by URL and merge disjoint response keys
+
+// C01: a field owned by another service may be folded into an existing child step only when that
+// step belongs to the same service AND is inserted at the same point of the response (otherwise the
+// field is fetched for another entity and stitched somewhere else). The obligation sits on the call
+// that does the folding and refers to the comparison that allowed it (ghost record of the call).
+//@ func extractSelectionSet
+//@ props C01
+//@ returns sel, steps, err
+//@ requires ctx != nil
+//@ assumes[routing-table] merger.wfTM(ctx.TypeURLMap)
+//@ assumes[schema] forallT(k, string, has(ctx.Schema.Types, k) ==> ctx.Schema.Types[k] != nil)
+//@ modifies-assumed anything
+//@ callsite addFieldToNodeQuery requires[same-service] atlast(IsEqual, step) == step && atlast(IsEqual, loc) == loc && atlast(IsEqual, step.URL) == loc @props C01
+//@ callsite addFieldToNodeQuery requires[same-insertion-point] lastresult(IsEqual) && atlast(IsEqual, step) == step && sameslice(lastarg(IsEqual, 0), atlast(IsEqual, step.InsertionPoint)) && sameslice(lastarg(IsEqual, 1), insertionPoint) @props C01
+//@ end
